@@ -59,6 +59,10 @@ Inductive stmt :=
 | SLoop (bd : option (string * string)) (k : nat) (body : stmt)
                                             (* for v in c: body; k = iterations done; continue? from the oracle *)
 | SCall (x : string) (body : stmt)          (* inlined call of a translated function; x := its return value *)
+| STry (b hd el fin : stmt)                 (* try: b  except ...: hd  else: el  finally: fin.  An exception that is
+                                               not an explicit raise is an oracle-chosen [SIf SRaise SSkip] placed by the
+                                               translator in front of every statement of b; hd is the oracle-chosen chain
+                                               of the handler bodies ending in SRaise (no handler matches) *)
 | SRaise
 | SReturn (a : atom)
 | SBreak
@@ -328,6 +332,23 @@ Fixpoint exec (fuel : nat) (s : stmt) (e : env) (h : heap) (o : oracle) : st * o
         | ((e1, h1, o1), OBreak) | ((e1, h1, o1), OCont) => ((e1, h1, o1), OErr)
         | r => r
         end
+    | STry b hd el fin =>
+        match exec f b e h o with
+        | ((e1, h1, o1), out1) =>
+            let r2 := match out1 with
+                      | ONorm => exec f el e1 h1 o1
+                      | ORaise => exec f hd e1 h1 o1
+                      | _ => ((e1, h1, o1), out1)
+                      end in
+            match r2 with
+            | (s2, OErr) => (s2, OErr)
+            | ((e2, h2, o2), out2) =>
+                match exec f fin e2 h2 o2 with
+                | (s3, ONorm) => (s3, out2)
+                | r3 => r3
+                end
+            end
+        end
     | SRaise => ((e, h, o), ORaise)
     | SReturn a =>
         match eval_atom e a with
@@ -358,6 +379,7 @@ Fixpoint binds (s : stmt) : list (string * option rhs) :=
   | SSeq a b | SIf a b => binds a ++ binds b
   | SLoop bd _ b => match bd with Some (v, _) => (v, None) :: binds b | None => binds b end
   | SCall x b => (x, None) :: binds b
+  | STry b hd el fin => binds b ++ binds hd ++ binds el ++ binds fin
   | _ => []
   end.
 
@@ -368,6 +390,7 @@ Fixpoint muts (s : stmt) : list mut :=
   | SMut2 x _ op => [Mut2 x op]
   | SSeq a b | SIf a b => muts a ++ muts b
   | SLoop _ _ b | SCall _ b => muts b
+  | STry b hd el fin => muts b ++ muts hd ++ muts el ++ muts fin
   | _ => []
   end.
 
